@@ -1,5 +1,6 @@
 import BlobfinderModel.Model.Proto
 import BlobfinderModel.Model.Masks
+import BlobfinderModel.Model.Patterns
 /-
 Model driver for masks and patterns.
 -/
@@ -27,10 +28,95 @@ def opBinCenters (ws : List String) : String :=
     | _, _, _ => "bad-op"
   | _ => "bad-op"
 
+def irange (n : Int) : List Int := (List.range n.toNat).map (fun (k : Nat) => (k : Int))
+
+def showOpt : Option Int → String
+  | none => "N"
+  | some v => toString v
+
+/-- `utindex target source` -> length, before, after, then the source index for every target index -/
+def opUtIndex (ws : List String) : String :=
+  match ints? ws with
+  | some [target, source] =>
+    if target < 1 ∨ source < 1 then "bad-op" else
+    let wd := utWidths target source
+    if wd.1 < 0 ∨ wd.2 < 0 then "negative-width" else
+    s!"{utLength target source} {wd.1} {wd.2} : " ++
+      " ".intercalate ((irange (utLength target source)).map fun i => showOpt (utIndex target source i))
+  | _ => "bad-op"
+
+/-- `maskval kind p1 p2 p3 c r...` -/
+def opMaskVal (ws : List String) : String :=
+  match ws with
+  | kind :: p1 :: p2 :: p3 :: c :: rs =>
+    match parseRat? p1, parseRat? p2, parseRat? p3, rats? rs with
+    | some p1, some p2, some p3, some rs =>
+      let isC := c = "1"
+      if kind = "circular" then joinRats (rs.map fun r => circularMask p1 isC r)
+      else if kind = "ring" then joinRats (rs.map fun r => ringMask p1 p2 isC r)
+      else if kind = "gradient" then joinRats (rs.map fun r => gradientMask p1 r)
+      else if kind = "rgbs" then joinRats (rs.map fun r => Gen.rgbs_val r p1 p2 p3)
+      else "bad-op"
+    | _, _, _, _ => "bad-op"
+  | _ => "bad-op"
+
+def opStamp (ws : List String) : String :=
+  match ints? ws with
+  | some (th :: tw :: oy :: ox :: sy :: sx :: vals) =>
+    if vals.length ≠ (th * tw).toNat ∨ th < 0 ∨ tw < 0 ∨ sy < 0 ∨ sx < 0 then "bad-op" else
+    let a := (vals.map fun (v : Int) => (v : Rat)).toArray
+    let tmpl : Int → Int → Rat := img a tw
+    joinRats ((irange sy).flatMap fun y => (irange sx).map fun x => stampDense tmpl th tw oy ox sy sx y x)
+  | _ => "bad-op"
+
+def opCtor (ws : List String) : String :=
+  match ws with
+  | [kind, radius, search, outer] =>
+    match parseRat? radius with
+    | some radius =>
+      -- `N` = argument omitted: defaults filled in as the constructors do
+      if kind = "circular" ∨ kind = "radial_gradient" then
+        let search := (parseRat? search).getD (Gen.circ_default_search radius)
+        let rej := if kind = "circular" then Gen.circ_rejects radius search else Gen.rg_rejects radius search
+        if rej then "ValueError" else s!"ok {showRat search} {Gen.crop_size_of search}"
+      else if kind = "background_subtraction" ∨ kind = "rgbs" then
+        let outer := (parseRat? outer).getD (Gen.bs_default_radius_outer radius 0)
+        let search := (parseRat? search).getD (Gen.bs_default_search radius outer)
+        let rej := if kind = "rgbs" then Gen.rgbs_rejects radius search outer else Gen.bs_rejects radius search outer
+        if rej then "ValueError" else
+          let extra := if kind = "rgbs" then
+            let r := Gen.rgbs_r radius outer
+            s!" {Gen.rgbs_center r} {Gen.rgbs_size r}" else ""
+          s!"ok {showRat search} {Gen.crop_size_of search} {showRat outer}{extra}"
+      else "bad-op"
+    | none => "bad-op"
+  | _ => "bad-op"
+
+def opGeom (ws : List String) : String :=
+  match ws with
+  | ["center", n] => match n.toInt? with
+    | some n => toString (Gen.mask_center n)
+    | none => "bad-op"
+  | ["fv", peak, c] => match peak.toInt?, c.toInt? with
+    | some peak, some c => s!"{Gen.fv_offset peak c} {Gen.fv_size c}"
+    | _, _ => "bad-op"
+  | ["scbbox", r] => match parseRat? r with
+    | some r => s!"{Gen.sc_bbox r} {Gen.sc_center (Gen.sc_bbox r)}"
+    | none => "bad-op"
+  | ["diskin", y, x, r] => match parseRat? y, parseRat? x, parseRat? r with
+    | some y, some x, some r => if Gen.disk_in y x r then "1" else "0"
+    | _, _, _ => "bad-op"
+  | _ => "bad-op"
+
 def step (line : String) : String :=
   match words line with
   | "bins" :: ws => opBins ws
   | "bincenters" :: ws => opBinCenters ws
+  | "utindex" :: ws => opUtIndex ws
+  | "maskval" :: ws => opMaskVal ws
+  | "stamp" :: ws => opStamp ws
+  | "ctor" :: ws => opCtor ws
+  | "geom" :: ws => opGeom ws
   | _ => "bad-op"
 
 def main : IO Unit := run step
